@@ -144,6 +144,9 @@ func (w *World) identify(po tabular.PropertyOwner) (string, bool) {
 			if mc == nil || !sameItem(mc.item, x.Item()) {
 				continue
 			}
+			if col := x.Location().Column; col != 0 && col != mc.idx+1 {
+				continue // same item, but at another position of its row
+			}
 			if p := w.addrPtr(mc); p != nil {
 				if p == x {
 					return "C" + strconv.Itoa(id), true
